@@ -118,6 +118,10 @@ Definition calls_on (b : bid) (p : list step) : list call := calls_from [] b p.
 Definition spec_store (p : list step) (b : bid) : option builder :=
   match aget N.eqb b (kinds p) with Some k => Some (spec_builder k (calls_on b p)) | None => None end.
 
+(* the header message that builder name r stands for after program p, from the tables alone *)
+Definition spec_resolve (p : list step) (r : bid) : encap_msg :=
+  match spec_store p r with Some h => encap_proto h | None => encap0 end.
+
 (* ---- projection of a program on one client ---- *)
 (* the calls made on client c, each with the program prefix that precedes it *)
 Fixpoint client_calls_from (pre : list step) (c : cid) (p : list step) : list (list step * ccall) :=
